@@ -4,7 +4,7 @@ EMA_FAMILY = ["ema", "dma", "tma", "dema", "tema", "rma"]
 NAMES = {"ema": "EMA", "dma": "DMA", "tma": "TMA", "dema": "DEMA", "tema": "TEMA", "rma": "RMA", "wsma": "WSMA"}
 
 
-def job(e, args, what, tier="q", core=True, cost=2, timeout=900, enc=None):
+def job(e, args, what, tier="q", core=True, cost=2, timeout=None, enc=None):
     return X("c03_" + e, args, what, tier=tier, core=core, cost=cost, timeout=timeout, encodes=enc or ["src/methods: %s::{new,next,peek}" % e])
 
 
